@@ -242,6 +242,10 @@ def auto_discharge(s):
             counted = any(re.search(r'Iterator>?::count$', c or '') for c in c_) and not any(re.search(r'::(chain|cycle|repeat|flat_map|flatten|zip)$', c or '') for c in c_)
             if counted and (set(la) & (set(n_) | {x.split('.')[-1] for x in f_})):
                 return 'auto/len-minus-count: the subtrahend counts items of an iterator over the same collection (without chain / flat_map), so it is <= len'
+    if s.kind == 'overflow' and t['mk'].endswith(':Sub') and is_local_op(t.get('a')) and not is_local_op(t.get('b')) and str(t['b'].get('i')) == '1':
+        d = _nonempty_tail_minus_one(b, t['a'])
+        if d:
+            return d
     d = search_index_discharge(b, s)
     if d:
         return d
@@ -592,6 +596,49 @@ def _copies_back(b, l, depth=6):
                     out.add(d['rv']['o']['l'])
                     st.append(d['rv']['o']['l'])
     return out
+
+
+def _nonempty_tail_minus_one(b, a):
+    """`tail.len() - 1` where (head, tail) = x.split_at(p) and p is the result of a search over x (position / find: p < x.len()):
+    the tail starts at the found item, so it has at least one item"""
+    for org in origins(b, a):
+        if org[0] in ('param', 'const', 'place'):
+            continue
+        st = org[1]
+        src = None
+        if st.get('k') == 'call' and call_matches(st, r'<impl \[T\]>::len$|<impl str>::len$') and st['args']:
+            src = st['args'][0]
+        elif st.get('k') == 'assign' and st['rv']['k'] == 'un' and st['rv']['op'] == 'PtrMetadata':
+            src = st['rv']['o']
+        if src is None or not is_local_op(src):
+            continue
+        # follow borrows / reborrows / copies back to `<tuple>.1`
+        work, seen = [src], set()
+        while work:
+            o = work.pop()
+            if not is_local_op(o):
+                continue
+            if o['p'] and o['p'][-1] == '.1' or (len(o['p']) >= 2 and o['p'][0] == '.1'):
+                for o3 in origins(b, {'l': o['l'], 'p': []}):
+                    if o3[0] in ('param', 'const', 'place'):
+                        continue
+                    c3 = o3[1]
+                    if c3.get('k') == 'call' and call_matches(c3, r'<impl \[T\]>::split_at$|<impl str>::split_at$|<impl \[T\]>::split_at_mut$') and len(c3['args']) >= 2:
+                        recv = source_names(b, c3['args'][0]) - {'self'}
+                        if recv and _search_derived(b, c3['args'][1], recv, False):
+                            return 'auto/nonempty-tail: the slice is the tail of split_at(p) with p the result of a search over the same collection (p < len), so its length is >= 1'
+                continue
+            if o['l'] in seen:
+                continue
+            seen.add(o['l'])
+            from flow import defs_of
+            for q, st2 in defs_of(b, o['l']):
+                if st2['k'] == 'assign' and st2['rv']['k'] in ('use', 'cast'):
+                    work.append(st2['rv']['o'])
+                elif st2['k'] == 'assign' and st2['rv']['k'] in ('ref', 'rawptr'):
+                    pl = st2['rv']['pl']
+                    work.append({'l': pl['l'], 'p': [x for x in pl['p'] if x != '*']})
+    return None
 
 
 def _len_source(b, o):
